@@ -451,8 +451,13 @@ Definition disc_ufunc (NP : npsem) (st : store) (ds : dspace) (nout : nat) (m : 
                       end
                   | MReduce =>
                       let rs' := byaxis_astype ds kept (ts_dt rsp) in
-                      (* res_space.element(res_tens): shapes must agree *)
-                      if shape_eqb (ts_shape rsp) (ts_shape (ds_ts rs')) then Ok ([OpDisc rs' id], st')
+                      (* res_space.element(res_tens): shapes must agree -- after
+                         np.array(..., ndmin=ndim) has prepended unit axes, in which
+                         case the element is a reshaped view of the result buffer *)
+                      let target := ts_shape (ds_ts rs') in
+                      if shape_eqb (ts_shape rsp) target then Ok ([OpDisc rs' id], st')
+                      else if shape_eqb (repeat 1%nat (length target - length (ts_shape rsp)) ++ ts_shape rsp) target
+                      then Ok ([OpDisc rs' id], wr st' id (mkArr (a_dt (rd st' id)) target (a_data (rd st' id))))
                       else Err EValue
                   | _ => Err ERuntime
                   end
